@@ -4,7 +4,7 @@ import struct
 
 from pyvc.core import And, Eq, Implies, Ite, Not, Or, SymBytes
 from pyvc.models import IoModel
-from pyvc.unit import unit
+from pyvc.unit import bare, unit
 from specs import sigblock as SB
 
 APKF = "androguard/core/apk/__init__.py"
@@ -27,7 +27,7 @@ META = {
 
 
 def _apk(m, raw=b""):
-    a = object.__new__(m.APK)
+    a = bare(m.APK)
     a._APK__raw = bytearray(raw)
     a._is_signed_v2 = a._is_signed_v3 = a._is_signed_v31 = None
     a._v2_blocks = []
